@@ -36,9 +36,9 @@ WALL = {"quick": 200, "thorough": 2400}
 RUN_TIMEOUT = 120
 RULE = ("scenario = clause A: program of 1-8 catalogue calls (prng wrappers, spawn, 7 mating protocols, phenotyping, 8 selection "
         "configurations, 4 sampling utilities, 13 pymoo optimisers, hill-climber, EMBV, random-selection problem, jitter, selection "
-        "protocols) run after prng.seed(s) under two prefix histories and two entropy/clock worlds (plus a fresh interpreter in the "
+        "protocols) run after prng.seed(s) under two prefix histories (light calls plus components related to the program: same call, sibling, any catalogue entry) and two entropy/clock worlds (plus a fresh interpreter in the "
         "thorough tier); clause B: one rng-accepting component run twice with a fresh SimGenerator(k) around a perturbation of the "
-        "globals and an entropy-world switch; distinct = (clause, multiset of call names, generator kind); non-trivial = program "
+        "globals, an optional history of related components on the global generator and an entropy-world switch; distinct = (clause, multiset of call names, generator kind); non-trivial = program "
         "contains a call that consumed randomness")
 COMPONENTS = {"real": ["pybrops.core.random.prng (seed, spawn, wrappers)", "all catalogue components (sim/catalog.py) incl. pymoo 0.6.2"],
               "stub": ["OS entropy (os.urandom, random._urandom, numpy bit_generator.randbits) and wall clocks replaced by deterministic worlds",
@@ -59,11 +59,29 @@ def _par(R, name):
         par.update(ncross=R.randint(1, 3), nmating=R.randint(1, 2), nprogeny=R.randint(1, 2), nself=R.choice([0, 0, 1]))
     if name in HEAVY:
         par.update(ngen=R.randint(1, 3), pop=R.choice([4, 6, 8]))
+    if name.startswith("legacy."):
+        par["wt"] = R.choice([1.0, -1.0])
     if name == "prng.spawn":
         par["n"] = R.choice([None, 1, 2, 3])
     if name.startswith("sampling."):
         par.update(k=R.randint(1, 9), replace=R.random() < 0.3)
     return par
+
+
+def _related(R, names):
+    """A catalogue call for a prior history: the same component as one of `names` (other parameters),
+    a sibling from the same family, or any entry that runs on the global generator."""
+    r = R.random()
+    pick = None
+    if names and r < 0.35:
+        pick = R.choice(names)
+    elif names and r < 0.8:
+        fam = R.choice(names).split(".")[0]
+        sib = [k for k in GLOBAL_OK if k.split(".")[0] == fam]
+        pick = R.choice(sib) if sib else None
+    if pick is None or pick not in GLOBAL_OK:
+        pick = R.choice(GLOBAL_OK)
+    return {"call": pick, "par": _par(R, pick)}
 
 
 def generate(R, tier):
@@ -85,6 +103,12 @@ def generate(R, tier):
         sc["steps"] = steps
         sc["prefix"] = [[R.choice(["prng.random", "py.random", "prng.normal", "prng.shuffle", "reseed", "sampling.sus", "mate.2w"]) for _ in range(R.randint(0, 3))]
                         for _h in range(2)]
+        if R.random() < 0.4:
+            # hidden state is usually shared between related components: one of the two histories also ran a
+            # component of the program itself, a sibling of one (same family) or any other catalogue entry
+            h = R.randrange(2)
+            for _ in range(R.randint(1, 2)):
+                sc["prefix"][h] = sc["prefix"][h] + [_related(R, [st["call"] for st in steps if st["call"] != "use"])]
         if sc["prefix"][0] == sc["prefix"][1]:
             sc["prefix"][1] = sc["prefix"][1] + ["prng.random"]
         sc["fresh"] = (tier == "thorough" and R.random() < 0.01)
@@ -93,6 +117,8 @@ def generate(R, tier):
         sc["steps"] = [{"call": name, "par": _par(R, name)}]
         sc["kind"] = R.choice(["Generator", "Generator", "RandomState"])
         sc["k"] = R.randrange(1 << 30)
+        # history between the two runs: related components executed on the global generator
+        sc["between"] = [_related(R, [name]) for _ in range(R.choice([0, 0, 1, 2]))]
     return sc
 
 
@@ -116,6 +142,18 @@ def shrink(sc):
             c = copy.deepcopy(sc)
             c["fresh"] = False
             yield c
+    if sc["clause"] == "A":
+        for h in range(2):
+            for j in range(len(sc["prefix"][h])):
+                c = copy.deepcopy(sc)
+                del c["prefix"][h][j]
+                if c["prefix"][0] != c["prefix"][1]:
+                    yield c
+    if sc.get("between"):
+        for j in range(len(sc["between"])):
+            c = copy.deepcopy(sc)
+            del c["between"][j]
+            yield c
     if sc["world"]["ntaxa"] > 4:
         c = copy.deepcopy(sc)
         c["world"]["ntaxa"] -= 1
@@ -134,6 +172,11 @@ def _run_prefix(ctx, names):
     for n in names:
         if n == "reseed":
             prng.seed(987654321)
+        elif isinstance(n, dict):
+            try:
+                catalog.CAT[n["call"]]["fn"](ctx, None, n["par"])
+            except Exception:
+                pass
         else:
             catalog.CAT[n]["fn"](ctx, None, {})
 
@@ -282,6 +325,9 @@ def _exec_B(sc):
                 prng.seed(31337 + sc["seed"] % 1000)     # perturb both global streams
                 numpy.random.random(3)
                 random.random()
+                if sc.get("between"):
+                    _run_prefix(catalog.Ctx(sc["world"]), sc["between"])
+                    faults["related_history_between_runs"] = 1
                 faults["globals_perturbed"] = 1
                 faults["entropy_clock_world_switch"] = 1
             else:
